@@ -230,6 +230,8 @@ def loads(vk, cfg):
                 elif gap0 <= 0 or gap >= 0:
                     raise Skip("sign pattern")
         skip = tuple(ch == "1" for ch in cfg.get("skip", "000"))
+        if cfg.get("skip") == "101":
+            skip = tuple(int(b_) for b_ in skip)  # 0 / 1 flags as in the documented examples
         it = fem.MultiPointContact(fc, points=[0, 2], centerpoint=4, skip=skip, multiplier=k) if cfg.get("skip") else fem.MultiPointContact(fc, points=[0, 2], centerpoint=4, multiplier=k)
         vk.real(fem.MultiPointContact._vector)
     r = np.asarray(dense(vk, lambda: it.assemble.vector(fc, **kw))).reshape(npts, 3)
